@@ -26,6 +26,7 @@ META = {
     'technique': 'static analysis: abstract interpretation over a doc-shape domain (type scenarios), guard facts, def-use on the '
                  'key iterable, registry exhaustiveness',
 }
+META['text'] += " Round 5: the sequence printer is also run on sequences one longer than every size constant it compares against (constants mined from the source) with elements of known kinds (exact int / float / int subclass): every element is handed to the recursive print entry, or is the repr of an exact int; the sequence builder separates T+1 elements by single commas; the sort key orders 'item9' / 'item10' like <; the pieces rule of the string model is imported (C01.h)."
 
 DELIMS = {'list': ('[', ']'), 'tuple': ('(', ')'), 'set': ('{', '}')}
 NEED = ['int', 'float', 'bool', 'type(None)', 'type(...)', 'str', 'bytes', 'list', 'tuple', 'set', 'frozenset', 'dict']
